@@ -452,12 +452,15 @@ def collect_inputs_for_node(
     inputs = {}
     # A mapping GraphNode runs its inner graph once per item: an inner signature default that is not
     # mapped over is left for each item's run to resolve (and copy) itself, instead of broadcasting
-    # one copy that the items would share.
+    # one copy that the items would share. A value bound on the inner graph is likewise resolved
+    # inside it, so it never goes through the clone path of the map.
     map_config = getattr(node, "map_config", None)
     mapped = set(map_config[0]) if map_config else None
     for param in node.inputs:
-        if mapped is not None and param not in mapped and get_value_source(param, node, graph, state, provided_values)[0] == ValueSource.DEFAULT:
-            continue
+        if mapped is not None and param not in mapped:
+            source = get_value_source(param, node, graph, state, provided_values)[0]
+            if source == ValueSource.DEFAULT or (source == ValueSource.BOUND and param not in graph._bound):
+                continue
         inputs[param] = _resolve_input(param, node, graph, state, provided_values)
     return inputs
 
